@@ -437,6 +437,16 @@ def reqDriverLoop (isGap : Bool) : Nat → Conn → Conn × Nat
       else if rc == .stop then ({ c with inn := { c.inn with status := STREAM_STOP } }, STREAM_STOP)
       else ({ c with inn := { c.inn with status := STREAM_ERROR } }, STREAM_ERROR)
 
+/-- "Store the current chunk information" + htp_conn_track_inbound_data -/
+def reqStoreChunk (data : Option Bytes) (len : Nat) (c : Conn) : Conn :=
+  { c with inn := { c.inn with cur := data.getD [], curNull := data.isNone, len := len, read := 0, consume := 0,
+                               receiver := 0, live := true },
+           inChunkCount := c.inChunkCount + 1, inDataCounter := c.inDataCounter + len }
+
+/-- `if (connp->out_status == HTP_STREAM_DATA_OTHER) connp->out_status = HTP_STREAM_DATA;` -/
+def reqWakeOther (c : Conn) : Conn :=
+  if c.out.status == STREAM_DATA_OTHER then { c with out := { c.out with status := STREAM_DATA } } else c
+
 /-- htp_connp_req_data(connp, ts, data, len): `data = none` is a NULL pointer (gap when len > 0, close when 0) -/
 def reqDataCore (data : Option Bytes) (len : Nat) (c : Conn) : Conn × Nat :=
   if c.inn.status == STREAM_STOP then (c, STREAM_STOP) else
@@ -444,12 +454,9 @@ def reqDataCore (data : Option Bytes) (len : Nat) (c : Conn) : Conn × Nat :=
   if c.inn.tx.isNone && c.inState != .idle then
     ({ c with inn := { c.inn with status := STREAM_ERROR } }, STREAM_ERROR) else
   if len == 0 && c.inn.status != STREAM_CLOSED then (c, STREAM_CLOSED) else
-  let c := { c with inn := { c.inn with cur := data.getD [], curNull := data.isNone, len := len, read := 0, consume := 0,
-                                        receiver := 0, live := true },
-                    inChunkCount := c.inChunkCount + 1, inDataCounter := c.inDataCounter + len }
+  let c := reqStoreChunk data len c
   if c.inn.status == STREAM_TUNNEL then (c, STREAM_TUNNEL) else
-  let c := if c.out.status == STREAM_DATA_OTHER then { c with out := { c.out with status := STREAM_DATA } } else c
-  reqDriverLoop cfg (data.isNone && len > 0) (8 * len + 64) c
+  reqDriverLoop cfg (data.isNone && len > 0) (8 * len + 64) (reqWakeOther c)
 
 /-- the call returns: the caller's chunk is no longer valid -/
 def reqData (data : Option Bytes) (len : Nat) (c : Conn) : Conn × Nat :=
